@@ -24,7 +24,7 @@ ASSUMPTIONS = [
 ]
 GATES = {
     "arm_limited_by_distance": 1, "arm_limited_by_intensity": 1, "arm_limited_by_mask": 1, "arm_limited_by_image_side": 1,
-    "region_touching_nan_cost": 1, "support_region_of_256_pixels_or_more": 1, "fractional_disparity_with_masked_right_neighbour": 1, "right_volume_checked": 2,
+    "region_touching_nan_cost": 1, "interval_wider_than_the_image": 1, "support_region_of_256_pixels_or_more": 1, "fractional_disparity_with_masked_right_neighbour": 1, "right_volume_checked": 2,
     "plane_independence_checked": 3, "costs_compared": 20000,
 }
 
@@ -71,7 +71,13 @@ def run_case(case, ctx):
     lmk = kinds[int(rng.integers(0, len(kinds)))] if (rng.random() < 0.6 and dist > 1) else "none"
     rmk = kinds[int(rng.integers(0, len(kinds)))] if (rng.random() < 0.6 and dist > 1) else "none"
     lm, rm = gen.mask(rng, rows, cols, lmk), gen.mask(rng, rows, cols, rmk)
-    a, b = gen.interval(rng, cols, ["neg", "pos", "straddle", "straddle", "point"][int(rng.integers(0, 5))])
+    ik = ["neg", "pos", "straddle", "straddle", "point", "wide", "outside"][int(rng.integers(0, 7))]
+    if case["i"] == 2:
+        ik = "wide"  # directed: disparities at both ends of the interval leave the image
+    if large and ik in ("wide", "outside"):
+        ik = "straddle"
+    a, b = gen.interval(rng, cols, ik)
+    ctx.gate("interval_wider_than_the_image", int(ik == "wide"))
     validation = rng.random() < 0.35
     left = gen.make_dataset(l, (a, b), lm)
     right = gen.make_dataset(r, None, rm)
